@@ -205,7 +205,7 @@ def Value.hex? (v : Value) (size : Nat := 0) : Option Str :=
     some (fmtHex sz i)
   | .expr .. => some ['0', '0']
   | .leftRight .. => some []
-  | .str s => some (s.flatMap (fun c => (natHexF 20 c.toNat).map hexChar))
+  | .str s => some (s.flatMap (fun c => fmtHex 2 c.toNat))       -- "{:02X}" per character (after the repair)
   | .multiByte hs => some hs.flatten
   | .multiWord hs => some hs.flatten
 
